@@ -549,6 +549,49 @@ func init() {
 			rel := maxI64 - off
 			g.emit("atw %d a:16:%d:116:0;a:1:%d:101:0;a:5:%d:105:0;k:%d:0;w:9:109:0;w:1:101:0", off, rel-6, rel-1, rel, rel-4)
 		}
+		// WriteAt / Seek with relative offsets all over the int64 range, on sections that do not start at 0
+		for rep := 0; rep < g.n(80, 800); rep++ {
+			base := []int64{1, 4096, 1 << 40, 5000000000000000000, maxI64 - 1000}[g.intn(5)]
+			n := int64(g.intn(200))
+			if base+n < 0 || base > maxI64-n {
+				n = 0
+			}
+			calls := []string{}
+			for c := 0; c < 1+g.intn(4); c++ {
+				o := []int64{maxI64, maxI64 - 100, maxI64 - base, maxI64 - base + 1, maxI64 - base - 1, 1 << 62, 1<<62 + 1<<61, 5000000000000000000, n, n - 1, -1, -maxI64, -maxI64 - 1}[g.intn(13)]
+				plen := []int{0, 1, 16, 200}[g.intn(4)]
+				if g.intn(3) == 0 {
+					calls = append(calls, fmt.Sprintf("k:%d:%d", o, g.intn(3)))
+				} else {
+					calls = append(calls, fmt.Sprintf("a:%d:%d:%d:0", plen, o, plen+100))
+				}
+			}
+			calls = append(calls, "w:1:100:0")
+			g.emit("sw %d %d %s", base, n, strings.Join(calls, ";"))
+		}
+		// a section over a section over the scripted writer
+		for rep := 0; rep < g.n(200, 2000); rep++ {
+			off1, n1 := int64(g.intn(50)), int64(g.intn(40))
+			off2, n2 := int64(g.intn(30)), int64(g.intn(60))
+			calls := []string{}
+			for c := 0; c < 1+g.intn(6); c++ {
+				plen := []int{0, 1, 3, 10, 50}[g.intn(5)]
+				acc, fail := plen+100, 0
+				if g.intn(6) == 0 {
+					acc, fail = g.intn(plen+1), g.intn(2)
+				}
+				switch g.intn(5) {
+				case 0, 1:
+					calls = append(calls, fmt.Sprintf("w:%d:%d:%d", plen, acc, fail))
+				case 2, 3:
+					calls = append(calls, fmt.Sprintf("a:%d:%d:%d:%d", plen, int64(g.intn(int(n2)+5))-1, acc, fail))
+				default:
+					calls = append(calls, fmt.Sprintf("k:%d:%d", int64(g.intn(int(n2)+5))-2, g.intn(3)))
+				}
+			}
+			calls = append(calls, "w:2:100:0")
+			g.emit("swn %d %d %d %d %s", off1, n1, off2, n2, strings.Join(calls, ";"))
+		}
 		g.emit("sw 0 0 w:0:0:0;w:1:1:0;a:0:0:0:0;k:0:0;k:0:2;k:1:2;w:1:1:0;z")
 		g.emit("sw 5 3 w:3:3:0;w:1:1:0;k:-1:1;w:2:2:0;k:0:3;k:-1:0;a:2:2:2:0")
 	}
